@@ -309,6 +309,15 @@ pub fn run(c: &Ctx) {
                 bad.push(s.iter().collect());
             }
         }
+        // every corruption also as the first clause of a longer expression whose tail is well-formed and
+        // aimed at either kind
+        let n0 = bad.len();
+        let firsts: Vec<String> = bad[bad.len().saturating_sub(chars.len() * 8).min(n0)..].to_vec();
+        for f in firsts {
+            bad.push(format!("{},f:u+x", f));
+            bad.push(format!("{},d:g+w", f));
+            bad.push(format!("{},a:o=r", f));
+        }
         bad.push(format!("{},", e));
         bad.push(format!(",{}", e));
         bad.push(format!("{},x", e));
